@@ -293,7 +293,7 @@ func (eval Evaluator[T]) EvaluatePolynomialVectorFromPowerBasis(targetLevel int,
 			*res.MetaData = *X[1].MetaData
 			res.Scale = targetScale
 
-			if even {
+			if even || !odd {
 
 				if err = eval.Add(res, eval.GetVectorCoefficient(pol, 0), res); err != nil {
 					return nil, err
@@ -308,7 +308,7 @@ func (eval Evaluator[T]) EvaluatePolynomialVectorFromPowerBasis(targetLevel int,
 		*res.MetaData = *X[1].MetaData
 		res.Scale = targetScale
 
-		if even {
+		if even || !odd {
 			if err = eval.Add(res, eval.GetVectorCoefficient(pol, 0), res); err != nil {
 				return nil, err
 			}
@@ -331,7 +331,7 @@ func (eval Evaluator[T]) EvaluatePolynomialVectorFromPowerBasis(targetLevel int,
 			*res.MetaData = *X[1].MetaData
 			res.Scale = targetScale
 
-			if even {
+			if even || !odd {
 				if err = eval.Add(res, eval.GetSingleCoefficient(pol.Value[0], 0), res); err != nil {
 					return
 				}
@@ -344,7 +344,7 @@ func (eval Evaluator[T]) EvaluatePolynomialVectorFromPowerBasis(targetLevel int,
 		*res.MetaData = *X[1].MetaData
 		res.Scale = targetScale
 
-		if even {
+		if even || !odd {
 			if err = eval.Add(res, eval.GetSingleCoefficient(pol.Value[0], 0), res); err != nil {
 				return
 			}
